@@ -2,6 +2,7 @@
  * stdin, one command per line:
  *   O <dir>                 gd_open(dir, GD_RDONLY), lookback = ALL   -> "O <err>"
  *   W <dir>                 gd_open(dir, GD_RDWR)                      -> "W <err>"
+ *   A <fragment> <fo>       gd_alter_frameoffset64(D, fo, fragment, 0) (data files untouched) -> "A <err>"
  *   P <field> <s> <n>       gd_putdata64(field, 0, s, 0, n, FLOAT64; values 1000+s+i) -> "P <err> <count>"
  *   L <n>                   gd_mplex_lookback(D, n)  (-1 = all)       -> "L"
  *   G <field> <rt> <s> <n>  gd_getdata64(field, 0, s, 0, n, rt)       -> "G <err> <count> <hex>..."
@@ -41,6 +42,11 @@ static int run_block(char **lines, int nl)
       D = gd_open(a, GD_RDWR);
       gd_mplex_lookback(D, GD_LOOKBACK_ALL);
       printf("W %d\n", gd_error(D));
+    } else if (line[0] == 'A') {
+      int frag; long long fo;
+      if (!D || sscanf(line + 1, "%d %lld", &frag, &fo) != 2) { printf("A bad\n"); continue; }
+      gd_alter_frameoffset64(D, (off64_t)fo, frag, 0);
+      printf("A %d\n", gd_error(D));
     } else if (line[0] == 'P') {
       long long s; unsigned long long n, i; size_t put; double *buf;
       if (!D || sscanf(line + 1, "%2047s %lld %llu", a, &s, &n) != 3) { printf("P bad\n"); continue; }
